@@ -1,15 +1,591 @@
 package main
 
 import (
+	"bufio"
+	"encoding/json"
+	"flag"
 	"fmt"
-	"golang.org/x/tools/go/packages"
+	"os"
+	"path/filepath"
+	"regexp"
+	"runtime"
+	"sort"
+	"strconv"
+	"strings"
+	"time"
+
 	"golang.org/x/tools/go/ssa"
-	"golang.org/x/tools/go/ssa/ssautil"
 )
 
+type PropSpec struct {
+	ID         string
+	Packages   []string
+	Contracted []string // package paths: verify every function with a contract
+	Functions  []string
+	Lemmas     []string
+	Sweep      []string
+	Level      string
+	Explain    []string
+	Assume     []string
+	Trusted    []string
+	Bounded    []string
+	Replays    map[string]string // obligation regexp -> replay driver name
+	NoClaim    []string          // obligation regexps that are attempted but not claimed
+}
+
+func readProp(path string) (*PropSpec, error) {
+	f, err := os.Open(path)
+	if err != nil {
+		return nil, err
+	}
+	defer f.Close()
+	ps := &PropSpec{Level: "other", Replays: map[string]string{}}
+	sc := bufio.NewScanner(f)
+	for sc.Scan() {
+		l := strings.TrimSpace(sc.Text())
+		if l == "" || strings.HasPrefix(l, "#") {
+			continue
+		}
+		kw, rest := firstWord(l)
+		switch kw {
+		case "packages":
+			ps.Packages = append(ps.Packages, strings.Fields(rest)...)
+		case "contracted":
+			ps.Contracted = append(ps.Contracted, strings.Fields(rest)...)
+		case "function":
+			ps.Functions = append(ps.Functions, rest)
+		case "lemma":
+			ps.Lemmas = append(ps.Lemmas, strings.Fields(rest)...)
+		case "sweep":
+			ps.Sweep = append(ps.Sweep, strings.Fields(rest)...)
+		case "level":
+			ps.Level = rest
+		case "explain":
+			ps.Explain = append(ps.Explain, rest)
+		case "assume":
+			ps.Assume = append(ps.Assume, rest)
+		case "trusted":
+			ps.Trusted = append(ps.Trusted, rest)
+		case "bounded":
+			ps.Bounded = append(ps.Bounded, rest)
+		case "noclaim":
+			ps.NoClaim = append(ps.NoClaim, rest)
+		case "replay":
+			a, b := firstWord(rest)
+			ps.Replays[a] = b
+		default:
+			return nil, fmt.Errorf("%s: unknown directive %q", path, kw)
+		}
+	}
+	return ps, sc.Err()
+}
+
+type Finding struct {
+	Kind       string // finding | fixed
+	Property   string
+	Obligation string
+	Text       string
+	Commit     string
+}
+
+func readFindings(path string) ([]Finding, error) {
+	data, err := os.ReadFile(path)
+	if err != nil {
+		if os.IsNotExist(err) {
+			return nil, nil
+		}
+		return nil, err
+	}
+	var out []Finding
+	re := regexp.MustCompile(`^(finding|fixed):\s+property=(\S+)\s+(?:commit=(\S+)\s+)?obligation=(\S+)\s+(?:--|—)\s*(.*)$`)
+	for _, l := range strings.Split(string(data), "\n") {
+		l = strings.TrimSpace(l)
+		if l == "" || strings.HasPrefix(l, "#") {
+			continue
+		}
+		m := re.FindStringSubmatch(l)
+		if m == nil {
+			return nil, fmt.Errorf("known_findings: cannot parse %q", l)
+		}
+		out = append(out, Finding{Kind: m[1], Property: m[2], Commit: m[3], Obligation: m[4], Text: m[5]})
+	}
+	return out, nil
+}
+
+func readLines(path string) []string {
+	data, err := os.ReadFile(path)
+	if err != nil {
+		return nil
+	}
+	var out []string
+	for _, l := range strings.Split(string(data), "\n") {
+		l = strings.TrimSpace(l)
+		if l != "" && !strings.HasPrefix(l, "#") {
+			out = append(out, l)
+		}
+	}
+	return out
+}
+
 func main() {
-	_ = packages.Load
-	_ = ssa.NaiveForm
-	_ = ssautil.Packages
-	fmt.Println("ok")
+	// the go tool used by go/packages is looked up through the process environment
+	os.Setenv("PATH", "/opt/veriftools/go1.26.8/bin:"+os.Getenv("PATH"))
+	os.Setenv("GOTOOLCHAIN", "local")
+	if len(os.Args) < 2 {
+		fmt.Fprintln(os.Stderr, "usage: govc check|dump ...")
+		os.Exit(2)
+	}
+	switch os.Args[1] {
+	case "check":
+		os.Exit(cmdCheck(os.Args[2:]))
+	default:
+		fmt.Fprintln(os.Stderr, "unknown command", os.Args[1])
+		os.Exit(2)
+	}
+}
+
+func cmdCheck(args []string) int {
+	fs := flag.NewFlagSet("check", flag.ExitOnError)
+	repo := fs.String("repo", "/repo", "repository directory")
+	verif := fs.String("verif", "/verif", "verif directory")
+	prop := fs.String("prop", "", "property id")
+	tier := fs.String("tier", "quick", "quick|thorough")
+	dumpDir := fs.String("dump", "", "keep SMT files in this directory")
+	writeBaseline := fs.Bool("write-baseline", false, "write the baseline file from this run (manual use only)")
+	only := fs.String("only", "", "only obligations matching this regexp (debugging; no evidence is written)")
+	verbose := fs.Bool("v", false, "verbose")
+	noEvidence := fs.Bool("no-evidence", false, "do not write the evidence file")
+	replayDirFlag := fs.String("replay-dir", "", "directory for replay files (default <verif>/evidence/replay)")
+	fs.Parse(args)
+	start := time.Now()
+	seed := 0
+	if s := os.Getenv("VERIF_SEED"); s != "" {
+		seed, _ = strconv.Atoi(s)
+	}
+	ps, err := readProp(filepath.Join(*verif, "specs", "props", *prop+".prop"))
+	if err != nil {
+		fmt.Fprintln(os.Stderr, "error:", err)
+		return 2
+	}
+	ps.ID = *prop
+	prog, err := LoadProgram(*repo, ps.Packages)
+	if err != nil {
+		fmt.Fprintln(os.Stderr, "error loading repository:", err)
+		return 2
+	}
+	if err := prog.LoadContracts(filepath.Join(*verif, "specs")); err != nil {
+		fmt.Fprintln(os.Stderr, "error in contracts:", err)
+		return 2
+	}
+	if err := prog.RegisterSpecs(); err != nil {
+		fmt.Fprintln(os.Stderr, "error in specs:", err)
+		return 2
+	}
+	loadS := time.Since(start).Seconds()
+
+	// functions to verify
+	var targets []*ssa.Function
+	seen := map[string]bool{}
+	var missing []string
+	add := func(key string) {
+		if seen[key] {
+			return
+		}
+		fn := prog.AllFuncs[key]
+		if fn == nil {
+			missing = append(missing, key)
+			return
+		}
+		seen[key] = true
+		targets = append(targets, fn)
+	}
+	for _, f := range ps.Functions {
+		add(f)
+	}
+	var ckeys []string
+	for k := range prog.Contracts {
+		ckeys = append(ckeys, k)
+	}
+	sort.Strings(ckeys)
+	for _, pkgPath := range ps.Contracted {
+		for _, k := range ckeys {
+			fc := prog.Contracts[k]
+			if fc.Pkg == pkgPath && !fc.Extern {
+				add(k)
+			}
+		}
+	}
+	var obs []*Obligation
+	var reports []*FuncReport
+	for _, fn := range targets {
+		fc := prog.Contracts[funcKey(fn)]
+		if fc != nil && fc.Trusted {
+			reports = append(reports, &FuncReport{Key: funcKey(fn), Trusted: true})
+			continue
+		}
+		o, rep := VerifyFunction(prog, fn, fc, false)
+		obs = append(obs, o...)
+		reports = append(reports, rep)
+	}
+	// zero-annotation safety sweep
+	sweepFns := 0
+	for _, pkgPath := range ps.Sweep {
+		var keys []string
+		for k, fn := range prog.AllFuncs {
+			if fn.Pkg != nil && fn.Pkg.Pkg.Path() == pkgPath || fn.Parent() != nil && fn.Parent().Pkg != nil && fn.Parent().Pkg.Pkg.Path() == pkgPath {
+				if len(fn.Blocks) > 0 && !seen[k] && fn.Synthetic == "" {
+					keys = append(keys, k)
+				}
+			}
+		}
+		sort.Strings(keys)
+		for _, k := range keys {
+			fn := prog.AllFuncs[k]
+			if strings.HasPrefix(fn.Name(), "lemma_") || strings.HasPrefix(fn.Name(), "init") {
+				continue
+			}
+			o, rep := VerifyFunction(prog, fn, prog.Contracts[k], true)
+			obs = append(obs, o...)
+			reports = append(reports, rep)
+			sweepFns++
+		}
+	}
+	// spec lemmas
+	for _, ln := range ps.Lemmas {
+		var lm *SpecLemma
+		for _, l := range prog.Spec.Lemmas {
+			if l.Name == ln {
+				lm = l
+			}
+		}
+		if lm == nil {
+			missing = append(missing, "lemma "+ln)
+			continue
+		}
+		ob, err := prog.LemmaObligation(lm)
+		if err != nil {
+			fmt.Fprintln(os.Stderr, "error:", err)
+			return 2
+		}
+		obs = append(obs, ob)
+	}
+	if *only != "" {
+		re := regexp.MustCompile(*only)
+		var f []*Obligation
+		for _, o := range obs {
+			if re.MatchString(o.Name) {
+				f = append(f, o)
+			}
+		}
+		obs = f
+	}
+	genS := time.Since(start).Seconds() - loadS
+
+	// solve
+	tmp := *dumpDir
+	if tmp == "" {
+		tmp, err = os.MkdirTemp("", "govc-")
+		if err != nil {
+			fmt.Fprintln(os.Stderr, "error:", err)
+			return 2
+		}
+		defer os.RemoveAll(tmp)
+	} else {
+		os.MkdirAll(tmp, 0o755)
+	}
+	pf := &Portfolio{Dir: tmp, TimeoutMs: 10000, Solvers: []string{"cvc5", "z3-new", "z3"}, Seed: seed}
+	if *tier == "thorough" {
+		pf.TimeoutMs = 60000
+		pf.All = true
+	}
+	workers := runtime.NumCPU() / 2
+	if workers < 2 {
+		workers = 2
+	}
+	pf.DischargeAll(obs, workers)
+
+	// decide
+	findings, err := readFindings(filepath.Join(*verif, "known_findings.txt"))
+	if err != nil {
+		fmt.Fprintln(os.Stderr, "error:", err)
+		return 2
+	}
+	baselinePath := filepath.Join(*verif, "baseline", *prop+".obligations")
+	baseline := map[string]bool{}
+	for _, l := range readLines(baselinePath) {
+		baseline[l] = true
+	}
+	known := map[string]Finding{}
+	for _, f := range findings {
+		if f.Kind == "finding" && f.Property == *prop {
+			known[f.Obligation] = f
+		}
+	}
+	noclaim := func(name string) bool {
+		for _, r := range ps.NoClaim {
+			if ok, _ := regexp.MatchString(r, name); ok {
+				return true
+			}
+		}
+		return false
+	}
+	byName := map[string]*Obligation{}
+	for _, o := range obs {
+		byName[o.Name] = o
+	}
+	replayDir := filepath.Join(*verif, "evidence", "replay")
+	if *replayDirFlag != "" {
+		replayDir = *replayDirFlag
+	}
+	os.MkdirAll(replayDir, 0o755)
+	violations := 0
+	var knownPrinted []string
+	var attempted []string
+	discharged, total := 0, 0
+	var obNames []string
+	for _, o := range obs {
+		obNames = append(obNames, o.Name)
+	}
+	if *writeBaseline {
+		var lines []string
+		for _, o := range obs {
+			if o.Status == "discharged" && !noclaim(o.Name) {
+				lines = append(lines, o.Name)
+			}
+		}
+		sort.Strings(lines)
+		os.MkdirAll(filepath.Dir(baselinePath), 0o755)
+		os.WriteFile(baselinePath, []byte(strings.Join(lines, "\n")+"\n"), 0o644)
+		fmt.Printf("baseline written: %d obligations\n", len(lines))
+		for _, l := range lines {
+			baseline[l] = true
+		}
+	}
+	report := func(o *Obligation, why string, replayed bool) {
+		violations++
+		path := filepath.Join(replayDir, *prop+"_"+sanitize(o.Name)+".txt")
+		writeReplayFile(path, *prop, o, why)
+		suffix := ""
+		if !replayed {
+			suffix = " no-failing-input-found"
+		}
+		fmt.Printf("VIOLATION property=%s replay=%s obligation=%s (%s)%s\n", *prop, path, o.Name, why, suffix)
+	}
+	for _, o := range obs {
+		claimed := baseline[o.Name]
+		if _, isKnown := known[o.Name]; isKnown {
+			if o.Status != "discharged" {
+				f := known[o.Name]
+				msg := fmt.Sprintf("KNOWN-FINDING: property=%s obligation=%s %s", *prop, o.Name, f.Text)
+				fmt.Println(msg)
+				knownPrinted = append(knownPrinted, msg)
+			} else {
+				knownPrinted = append(knownPrinted, fmt.Sprintf("listed finding no longer reproduces: %s", o.Name))
+			}
+			continue
+		}
+		if !claimed {
+			if *only == "" {
+				attempted = append(attempted, fmt.Sprintf("%s: %s %s", o.Name, o.Status, o.Detail))
+			}
+			continue
+		}
+		total++
+		if o.Status == "discharged" {
+			discharged++
+			continue
+		}
+		replayed := false
+		why := o.Status + ": " + o.Detail
+		if o.Status == "failed" {
+			if ok, note := tryReplay(prog, ps, o, *repo, *verif); ok {
+				replayed = true
+				why += "; " + note
+			} else if note != "" {
+				why += "; " + note
+			}
+		}
+		report(o, why, replayed)
+	}
+	// baseline obligations that no longer exist
+	if *only == "" {
+		var bl []string
+		for n := range baseline {
+			bl = append(bl, n)
+		}
+		sort.Strings(bl)
+		for _, n := range bl {
+			if _, ok := byName[n]; !ok {
+				if _, isKnown := known[n]; isKnown {
+					continue
+				}
+				total++
+				o := &Obligation{Name: n, Status: "missing", Detail: "contract target missing: the function, loop or call site this obligation is attached to no longer exists"}
+				report(o, o.Detail, false)
+			}
+		}
+	}
+	for _, m := range missing {
+		fmt.Printf("VIOLATION property=%s replay=%s contract target missing: %s no-failing-input-found\n", *prop, filepath.Join(replayDir, *prop+"_missing.txt"), m)
+		os.WriteFile(filepath.Join(replayDir, *prop+"_missing.txt"), []byte("contract target missing: "+m+"\n"), 0o644)
+		violations++
+	}
+	for _, r := range reports {
+		if r.OutOfReach != "" {
+			// a function under contract that cannot be executed symbolically any more
+			hasClaim := false
+			for n := range baseline {
+				if strings.HasPrefix(n, shortFuncName(r.Key)+":") {
+					hasClaim = true
+				}
+			}
+			if *verbose || hasClaim {
+				fmt.Printf("note: %s out of reach: %s\n", shortFuncName(r.Key), r.OutOfReach)
+			}
+		}
+	}
+	wall := time.Since(start).Seconds()
+	if *verbose {
+		for _, o := range obs {
+			fmt.Printf("  %-11s %-8s %5dms q=%d triv=%d %s %s\n", o.Status, o.Solver, o.Ms, len(o.Queries), o.Trivial, o.Name, o.Detail)
+		}
+	}
+	fmt.Printf("property %s tier %s: %d/%d claimed obligations discharged, %d attempted-not-claimed, %d known findings, %d functions (%d swept), load %.1fs gen %.1fs total %.1fs\n",
+		*prop, *tier, discharged, total, len(attempted), len(knownPrinted), len(reports), sweepFns, loadS, genS, wall)
+	if *only == "" && !*noEvidence {
+		writeEvidence(filepath.Join(*verif, "evidence", *prop+".json"), ps, *tier, seed, obs, reports, baseline, known, knownPrinted, attempted,
+			discharged, total, violations, wall, float64(pf.TotalMs)/1000, prog)
+	}
+	if total == 0 && *only == "" && !*writeBaseline {
+		fmt.Printf("VIOLATION property=%s replay=%s vacuity: no claimed obligations were generated no-failing-input-found\n", *prop, filepath.Join(replayDir, *prop+"_vacuity.txt"))
+		os.WriteFile(filepath.Join(replayDir, *prop+"_vacuity.txt"), []byte("no claimed obligations generated\n"), 0o644)
+		return 1
+	}
+	if violations > 0 {
+		return 1
+	}
+	return 0
+}
+
+func writeReplayFile(path, prop string, o *Obligation, why string) {
+	var b strings.Builder
+	fmt.Fprintf(&b, "property: %s\nobligation: %s\nstatus: %s\nwhy: %s\nclause: %s\nwhere: %s\n", prop, o.Name, o.Status, why, o.Clause, o.Where)
+	if o.FailIdx >= 0 && o.FailIdx < len(o.Traces) {
+		fmt.Fprintf(&b, "path (source line: branch): %s\n", strings.Join(o.Traces[o.FailIdx], " -> "))
+	}
+	if o.Model != "" {
+		fmt.Fprintf(&b, "\n--- solver output / model ---\n%s\n", o.Model)
+	}
+	if o.FailIdx >= 0 && o.FailIdx < len(o.Queries) {
+		fmt.Fprintf(&b, "\n--- query (SMT-LIB) ---\n%s\n", o.Queries[o.FailIdx].Render(true))
+	}
+	os.WriteFile(path, []byte(b.String()), 0o644)
+}
+
+func writeEvidence(path string, ps *PropSpec, tier string, seed int, obs []*Obligation, reports []*FuncReport,
+	baseline map[string]bool, known map[string]Finding, knownPrinted, attempted []string, discharged, total, violations int, wall, solverS float64, prog *Program) {
+	type obRec struct {
+		Name    string `json:"name"`
+		Status  string `json:"status"`
+		Solver  string `json:"solver"`
+		Ms      int64  `json:"ms"`
+		Queries int    `json:"path_queries"`
+		Trivial int    `json:"trivially_true_instances"`
+		Claimed bool   `json:"claimed"`
+		Clause  string `json:"clause,omitempty"`
+	}
+	var recs []obRec
+	bySolver := map[string]int{}
+	for _, o := range obs {
+		recs = append(recs, obRec{o.Name, o.Status, o.Solver, o.Ms, len(o.Queries), o.Trivial, baseline[o.Name], o.Clause})
+		if baseline[o.Name] && o.Status == "discharged" {
+			bySolver[o.Solver]++
+		}
+	}
+	type fnRec struct {
+		Name       string   `json:"name"`
+		File       string   `json:"file,omitempty"`
+		Line       int      `json:"line,omitempty"`
+		SrcHash    string   `json:"source_sha256_prefix,omitempty"`
+		Instrs     int      `json:"ssa_instructions,omitempty"`
+		Paths      int      `json:"paths,omitempty"`
+		Abstracted []string `json:"abstracted_calls,omitempty"`
+		Trusted    bool     `json:"trusted,omitempty"`
+		OutOfReach string   `json:"out_of_reach,omitempty"`
+	}
+	var fns []fnRec
+	externs := map[string]bool{}
+	for _, r := range reports {
+		fns = append(fns, fnRec{shortFuncName(r.Key), strings.TrimPrefix(r.File, prog.RepoDir+"/"), r.Line, r.SrcHash, r.Instrs, r.Paths, r.Abstracted, r.Trusted, r.OutOfReach})
+		for _, e := range r.Externs {
+			externs[e] = true
+		}
+	}
+	var trusted []string
+	trusted = append(trusted, "go/packages + go/types + go/ssa (x/tools v0.50.0, NaiveForm) lower /repo faithfully; govc implements SSA semantics correctly (guarded by the must-fail selftest corpus)",
+		"SMT solvers cvc5 1.0.3 / z3 5.1.0 / z3 4.8.12 are sound for unsat")
+	var exts []string
+	for e := range externs {
+		exts = append(exts, e)
+	}
+	sort.Strings(exts)
+	for _, e := range exts {
+		trusted = append(trusted, "assumed contract: "+e)
+	}
+	trusted = append(trusted, ps.Trusted...)
+	var samples []interface{}
+	for _, o := range obs {
+		if baseline[o.Name] && len(o.Queries) > 0 && len(samples) < 3 {
+			text := o.Queries[0].Render(false)
+			if len(text) > 6000 {
+				text = text[:6000] + "\n... (truncated)"
+			}
+			samples = append(samples, map[string]interface{}{"obligation": o.Name, "clause": o.Clause, "result": o.Status, "solver": o.Solver, "smt": text})
+		}
+	}
+	if len(samples) == 0 {
+		samples = append(samples, "no obligations")
+	}
+	level := ps.Level
+	if level == "proof" && discharged != total {
+		level = "other"
+	}
+	explanation := strings.Join(ps.Explain, " ")
+	if explanation == "" {
+		explanation = "contract-based deductive verification of the real code: obligations generated by symbolic execution of go/ssa of /repo against //@ contracts, discharged by SMT"
+	}
+	assumptions := append([]string{
+		"integers are mathematical (no overflow obligations); partial correctness (termination not proved)",
+		"slices are values (array,len): aliasing of backing arrays between different slice variables is not modelled (A-slice)",
+		"pointer parameters and receivers are non-nil (A-nonnil); calls without a contract are replaced by havoc of their computed write set",
+		"external (non-module) callees do not mutate module objects reachable only through interface-typed arguments (A-ext-readonly)",
+	}, ps.Assume...)
+	ev := map[string]interface{}{
+		"property_id": ps.ID,
+		"tier":        tier,
+		"seed":        seed,
+		"level":       level,
+		"wall_s":      wall,
+		"violations":  violations,
+		"assumptions": assumptions,
+		"coverage": map[string]interface{}{
+			"obligations":             total,
+			"discharged":              discharged,
+			"checker_cmd":             "bin/govc check --prop " + ps.ID + " --tier " + tier,
+			"trusted_base":            trusted,
+			"explanation":             explanation,
+			"samples":                 samples,
+			"functions":               fns,
+			"per_obligation":          recs,
+			"discharged_by_solver":    bySolver,
+			"solver_time_s":           solverS,
+			"known_findings":          knownPrinted,
+			"attempted_not_claimed":   attempted,
+			"bounded":                 ps.Bounded,
+			"functions_under_contract": len(fns),
+		},
+	}
+	data, _ := json.MarshalIndent(ev, "", " ")
+	os.MkdirAll(filepath.Dir(path), 0o755)
+	os.WriteFile(path, data, 0o644)
 }
